@@ -1,0 +1,6 @@
+//go:build !verif
+
+package cache
+
+// verifPoint is a no-op unless built with -tags verif.
+func verifPoint(string, string, []byte) {}
